@@ -15,7 +15,7 @@ SOURCES = {"hta/analyzers/trace_counters.py": ["_get_queue_length_time_series_fo
            "hta/common/trace_symbol_table.py": ["get_runtime_launch_events_query"],
            "hta/common/trace.py": ["convert_time_series_to_events"], "hta/trace_analysis.py": ["generate_trace_with_counters"],
            "hta/utils/utils.py": ["get_memory_kernel_type"]}
-TRANSLATE = [translate.gen_kernel_rules, translate.gen_launch_names]
+TRANSLATE = [translate.gen_kernel_rules, translate.gen_launch_names, translate.gen_counter_rules]
 INPUT_CONTRACT = True        # the loaded frame is re-checked against the file (framework.input_contract)
 N_CASES = {"quick": 300, "thorough": 5000}
 RULE = ("generated well-formed file sets, four in five causal, one in five with activities stamped before their launch call (1-2 ranks, 1-3 streams, FIFO kernels, tiny time domains: kernels starting at the very timestamp of their launch "
